@@ -58,6 +58,8 @@ for m in members:
     cid = m[1:]
     k = known.get(cid, {})
     if cid in errs:
+        if '*' in k:
+            k = dict({f: k['*'] for (f, _) in errs[cid]}, **k)     # a crate-wide expectation covers every file
         outside = [e for (f, e) in errs[cid] if f not in k]
         if outside:
             print(f"{cid}\tERR\t" + ' || '.join(outside[:6]))
